@@ -180,8 +180,10 @@ def run_program(ck, rng, meshes, grids, prog, centred, lead, routes, stats, mode
         # ---- uxarray's own operations ----
         kind = op[0]
         gd = [d for d in a.dims if d in GRID_DIMS]
-        if not gd or a.dims[-1] != gd[0]:
-            continue                      # uxarray's own operations expect the grid dimension last
+        if not gd:
+            continue
+        if (a.dims[-1] != gd[0] or a.dtype.kind not in "fiu") and kind not in ("dual", "isel_grid", "subset"):
+            continue                      # the numeric operations expect numbers with the grid dimension last; the others go by name
         gdim = gd[0]
         try:
             if kind in ("isel_grid", "subset"):
